@@ -234,16 +234,17 @@ Definition cop_holds (op : cop) (actual expected : N) : bool :=
   | OGt => expected <? actual
   end.
 
+(* operator prefixes are tried in the order <= >= == < > *)
+Definition strip_op (t : str) : option (cop * str) :=
+  match strip_prefix (T "<=") t with Some r => Some (OLe, r) | None =>
+  match strip_prefix (T ">=") t with Some r => Some (OGe, r) | None =>
+  match strip_prefix (T "==") t with Some r => Some (OEq, r) | None =>
+  match strip_prefix (T "<") t with Some r => Some (OLt, r) | None =>
+  match strip_prefix (T ">") t with Some r => Some (OGt, r) | None => None
+  end end end end end.
+
 Definition parse_constraint (s : str) : option (cop * N) :=
-  let t := trim s in
-  let opr :=
-    match strip_prefix (T "<=") t with Some r => Some (OLe, r) | None =>
-    match strip_prefix (T ">=") t with Some r => Some (OGe, r) | None =>
-    match strip_prefix (T "==") t with Some r => Some (OEq, r) | None =>
-    match strip_prefix (T "<") t with Some r => Some (OLt, r) | None =>
-    match strip_prefix (T ">") t with Some r => Some (OGt, r) | None => None
-    end end end end end in
-  match opr with
+  match strip_op (trim s) with
   | None => None
   | Some (op, r) =>
     match trim r with
